@@ -219,6 +219,7 @@ pub fn replay(a: &Args) -> i32 {
     }
     let path = a.str("out", "/verif/work/wire.ndjson");
     crate::trace::write_ndjson(std::path::Path::new(&path), &lines).unwrap();
-    print_summary(&json!({"evaluations": evaluations, "mismatches": mismatches, "trace": path, "random": n}));
+    let rows = tables["wire_req"].as_array().unwrap().len() + tables["wire_resp"].as_array().unwrap().len() + tables["wire_bad"].as_array().unwrap().len();
+    print_summary(&json!({"evaluations": evaluations, "rows": rows, "mismatches": mismatches, "trace": path, "random": n}));
     0
 }
